@@ -244,6 +244,23 @@ def run(ctx):
             Y = val[1][2]
             k2 = val[2]
             dxy = to_poly(Y) - to_poly(X)
+            # coverage: when i (the label whose end is concerned) is the variable of a range loop,
+            # the loop starts at the first label and runs to the last pair
+            if (k == "1" and k2 == "0" and dxy == Poly.const(1)) or (k == "0" and k2 == "1" and dxy == Poly.const(-1)):
+                from ..loops import loop_var_parts
+                I_ = X if k == "1" else Y
+                lvp = loop_var_parts(I_)
+                if lvp is not None:
+                    d_, s_, e_ = lvp
+                    sp_, ep_ = to_poly(s_), to_poly(e_)
+                    ln_ = Poly.atom(canon(("len", elem[1])))
+                    covers = d_ == "up" and sp_ == Poly.const(0) and (ep_ == ln_ or ep_ == ln_ - Poly.const(1))
+                    if covers:
+                        ctx.ok("C09-R2", "the inheritance loop runs over every label from the first (%s..%s)" % (sp_, ep_), cm.loc_of(st["span"]))
+                    else:
+                        ctx.fail("C09-R2", b.path, "inheritance range", "the inheritance rule is applied for i in %s %s..%s only, not for every neighbouring pair from the first label on: an unknown end / start outside that range is never filled in" % (d_, sp_, ep_), cm.loc_of(st["span"]))
+                else:
+                    ctx.note("C09-R2: the label index of an inheritance store is not a range-loop variable (%s); the coverage clause was not evaluated" % show(I_)[:60])
             if k == "1" and k2 == "0" and dxy == Poly.const(1):
                 need = {(canon(tgt), "neg"), (canon(val), "nonneg")}
                 if need <= set(gs):
@@ -438,6 +455,39 @@ def r3(ctx, p, b):
             ctx.ok("C09-R3", "fallback = estimate_duration(parameters[next_state .. state + nstate], 0.0): every label since the last fitted group keeps its model durations", cm.loc_of(ft["span"]))
         else:
             ctx.fail("C09-R3", b.path, "fallback range", "the fallback for trailing untimed labels covers %s with rho %s, expected parameters[next_state .. state + nstate] with rho 0 (labels between the last timed one and the final one would vanish)" % (show(fsl)[:120], show(frho)), cm.loc_of(ft["span"]))
+        # ... and it is taken for exactly the last label when that label has no end time: inside
+        # the loop the call is behind `end < 0` and `i + 1 == len(times)` (i = the enumerate index),
+        # nothing else (with `!=`, or an index off by one, an untimed label in the middle would be
+        # estimated on its own and the trailing ones would vanish again)
+        if fbb in lb:
+            def at_(e):
+                if e[0] == "len" and show(e[1]) == show(("arg", 2, b.local_name(2))):
+                    return ("LEN",)
+                sx = show(e)
+                if e[0] == "field" and e[2] == "0" and "enumerate(" in sx and sx.endswith("as Some).0.0"):
+                    return ("I",)
+                return None
+            want_d = Poly.atom(("I",)) + Poly.const(1) - Poly.atom(("LEN",))
+            last_ok = neg_ok = False
+            others = []
+            for g in paths.guards(b, fbb, eb):
+                if g[0] not in ("true", "false"):
+                    continue
+                sa = sign_atom(g)
+                if sa and sa[0] == endf and sa[1] == "neg":
+                    neg_ok = True
+                    continue
+                pos, c = paths.bool_atoms(g)
+                if c[0] == "bin" and c[1] in ("Eq", "Ne"):
+                    dlt = to_poly(c[2], at_) - to_poly(c[3], at_)
+                    if (dlt == want_d or (Poly.const(0) - dlt) == want_d) and ((c[1] == "Eq") == pos):
+                        last_ok = True
+                        continue
+                others.append(("" if pos else "not ") + show(c)[:80])
+            if last_ok and neg_ok and not others:
+                ctx.ok("C09-R3", "the fallback runs for exactly the last label when it has no end time (`end < 0` and `i + 1 == len(times)`)", cm.loc_of(ft["span"]))
+            else:
+                ctx.fail("C09-R3", b.path, "fallback condition", "the fallback for trailing untimed labels is not taken exactly when the *last* label has no end time (end < 0: %s; i + 1 == len(times): %s; other conditions: %s): trailing labels would vanish, or an untimed label in the middle would be estimated on its own" % (neg_ok, last_ok, others), cm.loc_of(ft["span"]))
     dom = b.dominators()
     # updates in the fitted branch
     res_local = t["dest"]["local"]
